@@ -24,6 +24,18 @@ CLAIMS = {
         technique="static analysis: call-graph link checking, callback-slot arity, sibling (energy vs Hessian) argument-role comparison, block-restriction provenance over the AST"),
 }
 
+CLAIMS["C07"] = dict(
+    category="other",
+    text=("Decides structural necessary conditions of 'reverse-mode sensitivities equal IFT derivatives': (D1) link "
+          "integrity (arity, tuple-unpack width, attributes) of the reverse-rule cones, so the rules can run at all; "
+          "(D2) the jax.custom_vjp packing/unpacking contract incl. residual roles and parameter restoration before any "
+          "Hessian/VJP use; (D3) slot-index agreement of param_index_update, Objective's jvp/vjp closures, the returned "
+          "Params tuple and the MechanicsInverse vjp wrappers; (D4) the adjoint sign convention (CG minimises v.z+1/2 z.H z, "
+          "lam used unnegated); (D5) the adjoint function-space constructor agrees with the ordinary one modulo "
+          "mesh.coords->coords. Numerical equality with dense IFT derivatives is NOT decided."),
+    design_ref="DESIGN.md section 4, C07",
+    technique="static analysis: call-graph link checking, custom_vjp protocol checking, slot-table agreement, sibling comparison over the AST")
+
 NA = {}
 
 
